@@ -114,7 +114,7 @@ class Graph:
                 while prev[x] is not None:
                     x = prev[x][0]
                     d += 1
-                if d >= budget:
+                if d >= budget - 1:
                     continue
                 for lab, v in self.succ.get(u, ()):
                     if v in prev:
@@ -131,35 +131,30 @@ class Graph:
                     q.append(v)
             return None
 
-        while uncovered:
-            # choose the init whose component still has uncovered edges
-            path = []
-            cur = None
-            for i0 in self.init:
-                hops = nearest_uncovered(i0, max_len)
-                if hops is not None:
-                    cur = i0
+        for i0 in self.init:
+            while uncovered:
+                if nearest_uncovered(i0, max_len) is None:
+                    break            # nothing left to cover from this initial state
+                path = []
+                cur = i0
+                nodes = [cur]
+                while len(path) < max_len:
+                    if cur in uncovered:
+                        lab, nxt = uncovered[cur].pop()
+                        if not uncovered[cur]:
+                            del uncovered[cur]
+                        path.append(lab)
+                        nodes.append(nxt)
+                        cur = nxt
+                        continue
+                    hops = nearest_uncovered(cur, max_len - len(path))
+                    if not hops:
+                        break
+                    for lab, nxt in hops:
+                        path.append(lab)
+                        nodes.append(nxt)
+                        cur = nxt
+                if not path:
                     break
-            if cur is None:
-                break    # remaining uncovered edges unreachable within max_len
-            nodes = [cur]
-            while len(path) < max_len:
-                if cur in uncovered:
-                    lab, nxt = uncovered[cur].pop()
-                    if not uncovered[cur]:
-                        del uncovered[cur]
-                    path.append(lab)
-                    nodes.append(nxt)
-                    cur = nxt
-                    continue
-                hops = nearest_uncovered(cur, max_len - len(path) - 1)
-                if not hops:
-                    break
-                for lab, nxt in hops:
-                    path.append(lab)
-                    nodes.append(nxt)
-                    cur = nxt
-            if not path:
-                break
-            paths.append((path, nodes))
+                paths.append((path, nodes))
         return paths, total
